@@ -188,6 +188,7 @@ def make_interp(ctx, count_reads):
         return NotImplemented
 
     ip.attr_hook = attr_hook
+    ip.type_model = ctx.tm  # class attributes attached by @ufl_type (used by the lifted __eq__ of expressions)
     ip.overrides.update(repr=m_repr, hash=m_hash, cmp_to_key=functools.cmp_to_key)
     # the module's own dispatch table, from its module-level assignments
     ip.exec_module_level(SORTING)
